@@ -184,15 +184,15 @@ claim('C16',
       'exactly the von Neumann / Moore offsets, slot k of the value window and of the label window look at the same '
       'neighbour, pass 2 uses the tables of pass 1, clamps use the extent of their own axis, both passes visit all '
       'cells in raster order; R2 pass 1 copies the first positive label among matching neighbours, otherwise takes a '
-      'fresh id (ids from 1, counter advanced at both sites), NaN cells copied through and skipped; R3 pass 2 merges '
-      'every pair of distinct labels among matching neighbours by two full-raster replacement loops (either order, '
-      'running minimum, no early exit); Q1 the running label counter is only ever stored in arrays of a fixed wide '
+      'fresh id (ids from 1, counter advanced exactly when used), NaN cells copied through and skipped; R3 pass 2 merges '
+      'every pair of distinct labels among matching neighbours by one whole-raster replacement between the two labels '
+      '(either order, the running label becomes the survivor, no early exit); Q1 the running label counter is only ever stored in arrays of a fixed wide '
       'dtype (never the raster\'s own); Q2 value matching is exact == on the integer path selected by '
       'np.issubdtype(dtype, np.integer), tolerance arithmetic only on the float path.',
       'Trusted: the paper argument that R1-R3 + an equivalence matching relation give exactly the connected '
       'components (cross-checked by hand). For float rasters the tolerance relation is not transitive; the property '
       'restricts itself to integer-valued rasters. Identity of coords/attrs is decided under C10.',
-      'structural premise extraction (neighbour tables, merge loops) + dtype-provenance rules',
+      'abstract interpretation of the labelling kernel (window stores, loop-carried labels, break paths) evaluated on finite decision tables + dtype-provenance rules',
       'DESIGN.md §4 C16')
 
 claim('C14',
@@ -209,7 +209,7 @@ claim('C14',
       'is the minimum over all routes and that no route implies all-NaN - these need the A* open/closed invariants.',
       'Trusted: admissible + consistent heuristic and correct relaxation imply optimality only together with the '
       'bookkeeping invariants, which are not checked.',
-      'symbolic form checks (exact rationals) + guard-order / store-pattern rules on the search kernel',
+      'symbolic form checks (exact rationals) + rules on the abstract interpretation of the search kernel, reconstruction and argmin scans (guards evaluated on finite tables, loop-carried updates, call records)',
       'DESIGN.md §4 C14')
 
 claim('C19',
@@ -263,7 +263,7 @@ claim('C06',
       'Trusted: the paper argument from these provenance premises to soundness; math.atan2 for the table values. The '
       'rules are structural patterns of this implementation (GDAL-style scheme); a different algorithm would be '
       'reported as undecidable/violating rather than verified.',
-      'provenance / paired-update / sweep-structure rules on the line routine + exact bearing-table evaluation',
+      'rules on the abstract interpretation of the line routine and driver (store values/guards, symbolic coupling of running minimum and adopted pair, program-ordered events) + exact bearing-table evaluation',
       'DESIGN.md §4 C06')
 
 claim('C05',
@@ -278,11 +278,14 @@ claim('C05',
       '90 level, (0,90) below, (90,180) above, from sqrt of the squared-distance key); T6 ew_res scales column and '
       'ns_res row differences, resolutions from width-1 / height-1; T7 events sorted by angle then type with EXIT < '
       'CENTER < ENTER; T8 observer cell by nearest-coordinate selection; T10 the observer elevation is formed after '
-      'widening to float. NOT decided (declined): that the red-black tree with augmented maxima returns the true '
+      'widening to float, target height = max(target_elev, 0); T11 sweep skeleton on the interpreted sweep: node fields '
+      'equal the event helpers applied to the matching event position / elevation (expectations built by interpreting '
+      'the helpers symbolically), the 2*pi fix-ups, and insert / delete / query dispatched by event type with the '
+      'cell\'s distance key, bearing and centre gradient. NOT decided (declined): that the red-black tree with augmented maxima returns the true '
       'maximum gradient after every insert/delete order, hence that the sweep marks exactly the visible cells.',
       'Trusted: math.atan/atan2 for table values. The declined core needs balanced-tree invariants over unbounded '
       'insert/delete histories - no sound static argument in reach.',
-      'symbolic interpretation + exhaustive sign-case evaluation of decision tables; layout/axis-role rules',
+      'symbolic interpretation of helpers and sweep kernel (stores, guards, call records) + exhaustive sign-case evaluation of decision tables; layout/axis-role rules',
       'DESIGN.md §4 C05')
 
 claim('C15',
